@@ -49,6 +49,17 @@ def s_twist(rng):
     return np.r_[rng.normal(size=3) * log_uniform(rng, 1e-3, 1e2), rand_unit(rng) * th]
 
 
+def s_delta(rng):
+    """differential motion of magnitude 1e-9 .. 1e-2 (sometimes up to 1), some with zero parts"""
+    d = rand_unit(rng, 6) * (log_uniform(rng, 1e-9, 1e-2) if rng.random() < 0.8 else log_uniform(rng, 1e-2, 1.0))
+    r = rng.random()
+    if r < 0.1:
+        d[:3] = 0
+    elif r < 0.2:
+        d[3:] = 0
+    return d
+
+
 # ------------------------------------------------------------------------------------------------ traces
 def concolic_trace(g, name, inputs, fn, point, **kw):
     """run fn on symbols with comparisons decided at the float point `point` (list of arrays, one per input);
@@ -108,6 +119,10 @@ def build(ctx):
     t, path = concolic_trace(g, 'tr_trexp6', [('s', 'V6')], base.trexp, [np.array([0.3, -0.2, 0.5, 0.4, 0.1, -0.7])],
                              sampler=lambda rng: [s_twist(rng)], tol=1e-9)
     g.paths = {'pc_trexp6': ([('s', 'V6')], path)}
+    # ---- what SE3.Delta hands to the constructor since 03e6d35: trnorm(delta2tr(d)) (concolic: unitvec compares norms)
+    t, path = concolic_trace(g, 'tr_Delta', [('d', 'V6')], lambda d: base.trnorm(base.delta2tr(d)),
+                             [np.array([0.1, -0.2, 0.3, 0.02, -0.03, 0.05])], sampler=lambda rng: [s_delta(rng)])
+    g.paths['pc_Delta'] = ([('d', 'V6')], path)
     return g
 
 
@@ -221,6 +236,18 @@ def ref_inv(T):
     Ti[:3, :3] = T[:3, :3].T
     Ti[:3, 3] = -T[:3, :3].T @ T[:3, 3]
     return Ti
+
+
+def ref_trnorm(T):
+    """independent reference for trnorm: columns n = o x a, a x n, a normalised; translation kept"""
+    o, a = T[:3, 1], T[:3, 2]
+    n = np.cross(o, a)
+    o2 = np.cross(a, n)
+    Rn = np.stack((n / np.linalg.norm(n), o2 / np.linalg.norm(o2), a / np.linalg.norm(a)), axis=1)
+    out = np.eye(4)
+    out[:3, :3] = Rn
+    out[:3, 3] = T[:3, 3]
+    return out
 
 
 def mp_expm(M, dps=50):
@@ -366,27 +393,31 @@ def oracle(ctx):
             if not err <= 1.0 * dm ** 2 + 1e-9 * dm:
                 ctx.fail('oracle:first-order-log', f"tr2delta(exp(d)) differs from d = log(exp(d)) by {err:g} > |d|^2 = {dm**2:g}",
                          {'d_hex': hexl(d), 'err': err})
-            # SE3.Delta: the constructor's validity test decides; L-real criterion sqrt(2)|w|^2 < tol*eps
+            # SE3.Delta(d) = SE3(trnorm(delta2tr(d))) since 03e6d35: accepted for every d, value = independent
+            # Gram-Schmidt reference, in SE(3), translation kept, tr2delta(Delta(d)) - d second order (theorem: 2|w|^2)
             wn2 = float(d[3:] @ d[3:])
-            thr = ctx.isR_tol * 2.0 ** -52
-            try:
-                XD = SE3.Delta(d)
+            XD = guard('SE3.Delta()', lambda: SE3.Delta(d), d)          # (new key: the old one is a fixed entry)
+            if XD is not None:
                 ctx.count('oracle:SE3.Delta:accepted')
-                chk('SE3.Delta-value', lambda: (XD.A), lambda: (D), dm, d)
-            except ValueError as ex:
-                ctx.count('oracle:SE3.Delta:rejected')
-                ctx.case(('Delta-rejected', tuple(d)))
-                if math.sqrt(2) * wn2 >= 0.5 * thr:
-                    ctx.fail('oracle:SE3.Delta:rejected:ValueError',
-                             f"SE3.Delta(d) raises ValueError ({ex}) for |w|={math.sqrt(wn2):g}: delta2tr(d) fails the constructor's own validity test",
-                             {'d_hex': hexl(d), 'w_norm': math.sqrt(wn2)})
-                else:
-                    ctx.fail('oracle:SE3.Delta:rejected-below-threshold',
-                             f"SE3.Delta(d) raises ValueError ({ex}) although sqrt(2)|w|^2 = {math.sqrt(2)*wn2:g} is below half the test threshold {thr:g}",
-                             {'d_hex': hexl(d), 'w_norm': math.sqrt(wn2)})
-            except Exception as ex:  # noqa
-                ctx.fail(f'oracle:SE3.Delta:raises:{type(ex).__name__}', f"SE3.Delta(d) raises {type(ex).__name__}: {ex}", {'d_hex': hexl(d)})
-
+                AD = XD.A
+                chk('SE3.Delta()-value', lambda: (AD), lambda: (ref_trnorm(np.eye(4) + ref_hat(d))), 1.0, d, tol=1e-12)
+                chk('SE3.Delta()-orthonormal', lambda: (AD[:3, :3] @ AD[:3, :3].T), lambda: (np.eye(3)), 1.0, d, tol=1e-14)
+                chk('SE3.Delta()-det', lambda: (np.linalg.det(AD[:3, :3])), lambda: (1.0), 1.0, d, tol=1e-14)
+                chk('SE3.Delta()-translation', lambda: (AD[:3, 3]), lambda: (d[:3]), 1.0, d, tol=0.0)
+                rt = np.asarray(base.tr2delta(AD), float) - d
+                ctx.case(('Delta-roundtrip', tuple(d)))
+                ctx.count('oracle:SE3.Delta()-roundtrip')
+                e_rot = float(np.max(np.abs(rt[3:])))
+                if wn2 > 0:
+                    ctx.stats['worst:SE3.Delta()-roundtrip/|w|^2'] = max(ctx.stats.get('worst:SE3.Delta()-roundtrip/|w|^2', 0.0), e_rot / wn2)
+                ctx.stats['worst:SE3.Delta()-roundtrip-abs'] = max(ctx.stats.get('worst:SE3.Delta()-roundtrip-abs', 0.0), e_rot)
+                if e_rot > 1e-9:
+                    ctx.count('info:SE3.Delta()-roundtrip-above-1e-9')
+                if not (e_rot <= 2.0 * wn2 + 4e-16 and float(np.max(np.abs(rt[:3]))) == 0.0):
+                    ctx.fail('oracle:SE3.Delta()-roundtrip', f"tr2delta(SE3.Delta(d)) - d = {rt.tolist()} exceeds the proved bound 2|w|^2 = {2*wn2:g} (or the translation changed)",
+                             {'d_hex': hexl(d), 'diff': rt.tolist()})
+                # ... and Delta(d) agrees with exp([d]) to second order as well
+                chk('SE3.Delta()-vs-exp', lambda: (AD), lambda: (E), max(dm * dm, 1e-300), d, tol=2.0 + 1e-15 / max(dm * dm, 1e-300))
         except Exception as ex:  # noqa
             section_failed('delta', ex, i)
         # ---------------- exp(ad S) = Ad(exp S)  (1e-7; reference exponentials: scipy Pade, mpmath 50 digits for a subset)
@@ -453,7 +484,7 @@ def run(ctx):
         with ctx.timed('oracle'):
             oracle(ctx)
         return
-    files = ['C13_maps.v', 'C13_adjoint.v', 'C13_delta.v', 'C13_log.v', 'C13_findings.v']
+    files = ['C13_maps.v', 'C13_adjoint.v', 'C13_delta.v', 'C13_log.v', 'C13_Delta.v']
     if ctx.thorough:
         files.append('C13_extra.v')
     for f in files:
